@@ -464,15 +464,20 @@ Proof. intros; unfold gen_windows; f_equal; lia. Qed.
 
 def main():
     repo, outdir = sys.argv[1], sys.argv[2]
+    os.makedirs(outdir, exist_ok=True)
     try:
         defs = translate(repo)
-    except Unsupported as u:
+    except (Unsupported, SyntaxError, OSError) as u:
+        # fail closed: a stub that does not compile, so that every theorem resting on the kernel is unproved
         print("UNSUPPORTED %s" % u)
+        stub = HEADER + "(* translation refused: %s *)\nDefinition translation_refused : False := I.\n" % str(u).replace("*)", "* )")
+        p = os.path.join(outdir, "Gen.v")
+        if not os.path.exists(p) or open(p).read() != stub:
+            open(p, "w").write(stub)
+        p = os.path.join(outdir, "GenEquiv.v")
+        if not os.path.exists(p) or open(p).read() != EQUIV:
+            open(p, "w").write(EQUIV)
         return 2
-    except (SyntaxError, OSError) as e:
-        print("UNSUPPORTED cannot read sources: %s" % e)
-        return 2
-    os.makedirs(outdir, exist_ok=True)
     text = HEADER
     for name, binders, body, kind in defs:
         if kind is True:
